@@ -779,8 +779,23 @@ func (d *c13Driver) randomExpr(scope int, reach []int) []byte {
 		}
 		x = append(x, 0x2f, byte(cnt))
 	}
-	for _, s := range segs {
+	// now and then a dual/multi-name prefix item sits in front of later segments too (it is stepped over)
+	embed := rng.Intn(8) == 0
+	for i, s := range segs {
+		if embed && i > 0 && rng.Intn(3) > 0 {
+			switch rng.Intn(4) {
+			case 0, 1:
+				x = append(x, 0x2e)
+			case 2:
+				x = append(x, 0x2f, byte(len(segs)-i))
+			default:
+				x = append(x, 0x2f, []byte{0, 1, 2, 9, 48, 64, 65, 95, 96, 255}[rng.Intn(10)])
+			}
+		}
 		x = append(x, s[:]...)
+	}
+	if embed && rng.Intn(6) == 0 { // a trailing item: no name follows
+		x = append(x, [][]byte{{0x2e}, {0x2f}, {0x2f, 1}}[rng.Intn(3)]...)
 	}
 	switch rng.Intn(40) {
 	case 0, 1, 2: // too-short: cut 1..3 bytes off the end
